@@ -16,16 +16,16 @@ determinism)
     IDS="${*:-$ALL_IDS}"; N="${DET_N:-1500}"; BAD=0
     make -s -C "$ROOT" -j16 setup > /dev/null || exit 2
     T="$(mktemp -d "$ROOT/build/det.XXXXXX")"
-    for id in $IDS; do
-        B="$ROOT/build/main/bin/$(harness_of "$id")"
-        n=$N; [ "$id" = C07 ] && n=$((N/10))
+    for id in $IDS; do for V in "" nd/; do   # both builds: assertions compiled in, and the release-build twin
+        B="$ROOT/build/main/${V}bin/$(harness_of "$id")"
+        n=$N; [ "$id" = C07 ] && n=$((N/10)); [ -n "$V" ] && n=$((n/3))
         for k in 1 2 3; do "$B" --prop "$id" --det "$n" > "$T/$id.$k" 2>/dev/null & done; wait
         if ! cmp -s "$T/$id.1" "$T/$id.2" || ! cmp -s "$T/$id.1" "$T/$id.3"; then echo "DETERMINISM FAIL $id: processes disagree"; BAD=1; fi
         if awk '$3 != $4 || $5 != $6 { exit 1 }' "$T/$id.1"; then :; else echo "DETERMINISM FAIL $id: two in-process executions of one plan differ"; BAD=1; fi
         for w in 1 4 16; do "$B" --prop "$id" --runs "$n" --jobs "$w" --no-evidence --replay-dir "$T/r" 2>/dev/null | grep '^sim: [0-9]' | sed 's/, [0-9.]*s;/;/' > "$T/$id.w$w"; done
         if ! cmp -s "$T/$id.w1" "$T/$id.w4" || ! cmp -s "$T/$id.w1" "$T/$id.w16"; then echo "DETERMINISM FAIL $id: batches with 1/4/16 workers disagree"; cat "$T/$id".w*; BAD=1; fi
-        echo "determinism $id: $n plans x (2 in-process + 3 processes) identical; batches at 1/4/16 workers identical: $(cat "$T/$id.w1")"
-    done
+        echo "determinism $id ${V:+(ndebug build) }: $n plans x (2 in-process + 3 processes) identical; batches at 1/4/16 workers identical: $(cat "$T/$id.w1")"
+    done; done
     rm -rf "$T"; exit $BAD ;;
 sensitivity|seeded|baseline)
     make -s -C "$ROOT" -j16 setup > /dev/null || exit 2
